@@ -133,6 +133,8 @@ type party struct {
 	c   cfg
 	sk  []byte
 	sk2 []byte // route factory2raw: the private key of ANOTHER raw key that precedes the matching one in the keyset
+	// preArg: first argument (plaintext / ciphertext) of the preceding call of a session, logged with the next event
+	preArg []byte
 	enc tink.HybridEncrypt
 	dec tink.HybridDecrypt
 }
@@ -434,7 +436,8 @@ func (c cfg) ev(name string) vt.Ev {
 
 func (p *party) fill(e vt.Ev, ct []byte) {
 	a := mlDecaps(p.c, p.sk, ct)
-	e["skR"], e["sk2"] = vt.Hex(p.sk), vt.Hex(p.sk2)
+	e["skR"], e["sk2"], e["pre_arg"] = vt.Hex(p.sk), vt.Hex(p.sk2), vt.Hex(p.preArg)
+	p.preArg = nil
 	e["ml_param"], e["ml_seed"], e["ml_ct"], e["ml_ok"], e["ml_ss"] = a.Param, a.Seed, a.Ct, a.Ok, a.Ss
 }
 
@@ -447,14 +450,14 @@ func clone(b []byte) []byte { return append(make([]byte, 0, len(b)+32), b...) } 
 // call in "pre"/"pre_info", so that a replay can re-execute the sequence.
 
 // encryptOn calls Encrypt on the caller-owned buffers pbuf/ibuf; pt/info are the pristine values they hold(held).
-func (p *party) encryptOn(w *vt.Writer, kind, pre string, pbuf, ibuf, pt, info []byte) []byte {
+func (p *party) encryptOn(w *vt.Writer, kind, pre string, preInfo, pbuf, ibuf, pt, info []byte) []byte {
 	var out []byte
 	var err error
 	pn, pv := vt.Try(func() { out, err = p.enc.Encrypt(pbuf, ibuf) })
 	ct := append([]byte{}, out...)
 	e := p.c.ev("encrypt")
 	p.fill(e, ct)
-	e["class"], e["kind"], e["want"], e["pre"], e["pre_info"] = "enc", kind, "", pre, ""
+	e["class"], e["kind"], e["want"], e["pre"], e["pre_info"] = "enc", kind, "", pre, vt.Hex(preInfo)
 	e["pt"], e["info"], e["ct"] = vt.Hex(pt), vt.Hex(info), vt.Hex(ct)
 	e["err"], e["panic"] = err != nil, pn
 	e["in_intact"] = bytes.Equal(pbuf, pt) && bytes.Equal(ibuf, info)
@@ -472,8 +475,8 @@ func (p *party) encryptOn(w *vt.Writer, kind, pre string, pbuf, ibuf, pt, info [
 func (p *party) encryptEv(w *vt.Writer, kind string, pt, info []byte) []byte {
 	pt, info = append([]byte{}, pt...), append([]byte{}, info...)
 	pbuf, ibuf := clone(pt), clone(info)
-	ct := p.encryptOn(w, kind, "", pbuf, ibuf, pt, info)
-	p.encryptOn(w, kind+"-again-same-buffers", "same", pbuf, ibuf, pt, info)
+	ct := p.encryptOn(w, kind, "", nil, pbuf, ibuf, pt, info)
+	p.encryptOn(w, kind+"-again-same-buffers", "same", info, pbuf, ibuf, pt, info)
 	return ct
 }
 
@@ -516,6 +519,96 @@ func (p *party) reuse(w *vt.Writer, class, kind string, ct, info, want []byte) {
 	buf2 := clone(ct)
 	p.decryptOn(w, "mut", "info-wrong-same-buffer", "", nil, buf2, clone(wrong), ct, wrong, nil)
 	p.decryptOn(w, class, "after-wrong-context-same-buffer", "wrongctx", wrong, buf2, clone(info), ct, info, want)
+}
+
+// A session is what an application that recycles its buffers does: successive calls on ONE primitive instance take
+// the context info from ONE reused buffer and the plaintext / ciphertext from another, both overwritten in place
+// between calls (same length with new contents, shorter, longer, empty, back). Every call is its own event, judged by
+// the reference with the values the caller actually passed (logged from pre-call copies). pre = "prev" names the
+// preceding call on the same instance and buffers (pre_info, pre_arg), which is what a replay re-executes first.
+type session struct {
+	p                 *party
+	ib, ab            []byte // the reused backing arrays
+	prevInfo, prevArg []byte
+	started           bool
+}
+
+func newSession(p *party) *session {
+	return &session{p: p, ib: make([]byte, 0, 1024), ab: make([]byte, 0, 16384)}
+}
+
+// load overwrites the reused buffers in place with (arg, info) and returns the slices to pass.
+func (s *session) load(arg, info []byte) (a, i []byte) {
+	if len(arg) > cap(s.ab) {
+		s.ab = make([]byte, 0, 2*len(arg))
+	}
+	if len(info) > cap(s.ib) {
+		s.ib = make([]byte, 0, 2*len(info))
+	}
+	a, i = s.ab[:len(arg)], s.ib[:len(info)]
+	copy(a, arg)
+	copy(i, info)
+	return
+}
+
+func (s *session) pre() string {
+	if s.started {
+		s.p.preArg = s.prevArg
+		return "prev"
+	}
+	return ""
+}
+
+func (s *session) encrypt(w *vt.Writer, kind string, pt, info []byte) []byte {
+	pt, info = append([]byte{}, pt...), append([]byte{}, info...)
+	a, i := s.load(pt, info)
+	ct := s.p.encryptOn(w, kind, s.pre(), s.prevInfo, a, i, pt, info)
+	s.prevInfo, s.prevArg, s.started = info, pt, true
+	return ct
+}
+
+func (s *session) decrypt(w *vt.Writer, class, kind string, ct, info []byte) {
+	ct, info = append([]byte{}, ct...), append([]byte{}, info...)
+	a, i := s.load(ct, info)
+	s.p.decryptOn(w, class, kind, s.pre(), s.prevInfo, a, i, ct, info, nil)
+	s.prevInfo, s.prevArg, s.started = info, ct, true
+}
+
+// otherContents returns a string of the same length and different contents.
+func otherContents(r *rand.Rand, b []byte) []byte {
+	o := vt.Bytes(r, len(b))
+	if len(b) > 0 && bytes.Equal(o, b) {
+		o[0] ^= 0x80
+	}
+	return o
+}
+
+// recycle runs an Encrypt session and then a Decrypt session over its ciphertexts on the one primitive pair of p.
+// The walk of context / plaintext lengths goes same -> same (new contents) -> shorter -> longer -> empty -> back.
+func recycle(w *vt.Writer, p *party, r *rand.Rand, long bool) {
+	il := []int{20, 20, 5, 40, 0, 20}
+	pl := []int{16, 16, 3, 50, 0, 16}
+	if long {
+		il = []int{32, 32, 32, 1, 1, 0, 0, 64, 63, 64, 200, 32, 0, 1}
+		pl = []int{33, 33, 33, 0, 1, 1, 100, 100, 16, 15, 17, 0, 0, 33}
+	}
+	type msg struct{ pt, info, ct []byte }
+	var ms []msg
+	es := newSession(p)
+	for k := range il {
+		m := msg{pt: content(r, pl[k], k), info: vt.Bytes(r, il[k])}
+		if m.ct = es.encrypt(w, "seq", m.pt, m.info); m.ct != nil {
+			ms = append(ms, m)
+		}
+	}
+	ds := newSession(p)
+	for _, m := range ms {
+		ds.decrypt(w, "seq", "seq-right", m.ct, m.info)
+		if len(m.info) > 0 { // the caller overwrites his context buffer: same length, new contents, same ciphertext
+			ds.decrypt(w, "seq", "seq-context-overwritten", m.ct, otherContents(r, m.info))
+			ds.decrypt(w, "seq", "seq-right-again", m.ct, m.info)
+		}
+	}
 }
 
 func flip(b []byte, byteIdx int, bit uint) []byte {
@@ -867,6 +960,9 @@ func runTink(w *vt.Writer) {
 			}
 			mutate(w, p, other, ct, info, r, level)
 		}
+		if c.Deep || vt.Thorough() {
+			recycle(w, p, r, vt.Thorough() && c.Deep)
+		}
 		if vt.Thorough() && c.Deep {
 			// every plaintext length 0..48: DEM block boundaries, the short (< 16) and long S2V branch of AES-SIV,
 			// the GCM / CTR partial blocks
@@ -917,6 +1013,7 @@ func runTink(w *vt.Writer) {
 			}
 			mutate(w, p, o, ct, info, r, li)
 		}
+		recycle(w, p, r, false)
 	}
 }
 
@@ -950,6 +1047,7 @@ func twoRawKeys(w *vt.Writer, r *rand.Rand) {
 				p.reuse(w, "own", "own", ct, info, nil)
 			}
 		}
+		recycle(w, p, r, false)
 	}
 }
 
@@ -1137,6 +1235,17 @@ func replay(path string, w *vt.Writer) {
 		vt.Fatal("replay: cannot construct the primitives: %v", err)
 	}
 	ct, info, want := vt.Unhex(str("ct")), vt.Unhex(str("info")), vt.Unhex(str("want"))
+	if str("pre") == "prev" { // the preceding call of the session on the same instance and buffers, then this call
+		s := newSession(p)
+		if str("ev") == "encrypt" {
+			s.encrypt(w, "replay-prev-call", vt.Unhex(str("pre_arg")), vt.Unhex(str("pre_info")))
+			s.encrypt(w, str("kind"), vt.Unhex(str("pt")), info)
+		} else {
+			s.decrypt(w, "seq", "replay-prev-call", vt.Unhex(str("pre_arg")), vt.Unhex(str("pre_info")))
+			s.decrypt(w, str("class"), str("kind"), ct, info)
+		}
+		return
+	}
 	switch str("ev") {
 	case "encrypt": // both calls of the sequence (the second reuses the buffers of the first)
 		p.encryptEv(w, strings.TrimSuffix(str("kind"), "-again-same-buffers"), vt.Unhex(str("pt")), info)
